@@ -433,6 +433,12 @@ def run(ctx):
         for creds in (True, False):
             for k in ((0, 3, 6) if quick else range(0, 25, 2)):
                 jobs.append((version, v0, creds, k, ctx.rng.getrandbits(16), True))
+    # two endpoints that do not share a fragment size (it is a local sending parameter, not negotiated and no limit on what the peer
+    # may put into one DATA packet): DATA payloads longer than the RECEIVER's own fragment size, in either direction
+    for version, v0 in ((1, (0, 0, 0)), (0, (0, 1, 1)), (0, (1, 0, 0))):
+        for fsizes in ((20, 9), (5, 9), (9, 4)):
+            for k in ((0, 6) if quick else range(0, 25, 3)):
+                jobs.append((version, v0, False, k, ctx.rng.getrandbits(16), False, fsizes))
     nsess = nsd = 0
     with multiprocessing.Pool(min(16, os.cpu_count() or 4)) as pool:
         for job, sess, err in pool.imap_unordered(session_job, jobs, chunksize=2):
@@ -441,13 +447,13 @@ def run(ctx):
                 continue
             r = l1_corr.compare(drv2, sess, "x")
             nsess += 1
-            ctx.case(key=("session",) + tuple(job[:4]) + (len(job),), nontrivial=True, tag="session:v%d%s:%s:lost-%d" % (job[0], "-at-dual-stack-server" if len(job) > 5 else "", "creds" if job[2] else "nocreds", job[3]))
+            ctx.case(key=("session",) + tuple(job[:4]) + (len(job),) + tuple(job[6:]), nontrivial=True, tag="session:v%d%s%s:%s:lost-%d" % (job[0], "-at-dual-stack-server" if len(job) > 5 and job[5] else "", ":fragment-sizes-%d/%d" % job[6] if len(job) > 6 else "", "creds" if job[2] else "nocreds", job[3]))
             if not r["ok"]:
                 nsd += 1
                 d = r["diffs"][0]
                 if nsd <= 4:
                     ctx.violation("wire-mismatch:session:v%d" % job[0],
-                                  ("session (prudp v%d" + (" client at a server configured for both encodings" if len(job) > 5 else "") + ", v0 variant %r, %s credentials, genuine datagram #%d lost once): what the real endpoint '%s' emits differs from the protocol reference: %s")
+                                  ("session (prudp v%d" + (" client at a server configured for both encodings" if len(job) > 5 and job[5] else "") + (", fragment size client %d / server %d" % job[6] if len(job) > 6 else "") + ", v0 variant %r, %s credentials, genuine datagram #%d lost once): what the real endpoint '%s' emits differs from the protocol reference: %s")
                                   % (job[0], job[1], "with" if job[2] else "without", job[3], d.get("endpoint"), json.dumps(d, default=repr)[:600]),
                                   {"job": list(job), "first_difference": d, "how": "harness/corr_C08.py session_job(job) then l1_corr.compare(driver C02, session)"})
     ctx.extra["sessions_replayed"] = nsess
@@ -468,6 +474,9 @@ def session_job(job):
     try:
         cfg = psess.Cfg(version=version, v0=v0, credentials=creds, fragment_size=9, resend_timeout=0.5, resend_limit=3, max_substream=(1 if version else 0))
         cfg_s = psess.Cfg(**dict(cfg.describe(), version=2)) if dual else None      # a server that takes v0 and v1 peers on one port
+        if len(job) > 6:
+            cfg = psess.Cfg(**dict(cfg.describe(), fragment_size=job[6][0]))
+            cfg_s = psess.Cfg(**dict(cfg.describe(), fragment_size=job[6][1]))
         rng = random.Random(seed)
         script = [[("c", 0, rng.randbytes(20)), ("s", 0, rng.randbytes(9)), ("c", 0, ("u", rng.randbytes(5)))],
                   [("s", (1 if version else 0), rng.randbytes(3)), ("c", 0, rng.randbytes(1))]]
